@@ -501,7 +501,7 @@ impl Check for C18 {
     }
 
     fn rule(&self) -> String {
-        "native part: each seeded run has 3-6 logical clients with scripts of 5-30 self-contained operations (construct parameters, prove with a per-operation seeded RNG, verify singly and in batches of 1-4 with optional corruption, encode/decode, drop parameter clones) over a shared pool of parameter objects (clones share one Arc table); 10% of prover operations crash through an injected RNG panic (caught); the same scripts run under two different seeded interleavings and every operation is repeated once; a sample of operations also runs as the first library call of a fresh process; oracle: an operation's result digest (proof bytes, Ok/Err class, masks) is a function of its descriptor only. Schedule part: Miri interprets 2-3 real threads (racing first use of the statics, sharing one precomputed table, thorough: proving and verifying concurrently) under seeded schedules with its data-race detector on and compares every thread's results with a single-threaded reference. One evaluation = one operation executed or one Miri execution; distinct = distinct event-log hashes + distinct schedule signatures.".into()
+        "native part: each seeded run has 3-6 logical clients with scripts of 5-30 self-contained operations (construct parameters, prove with a per-operation seeded RNG, verify singly and in batches of 1-4 with optional corruption, encode/decode, drop parameter clones) over a shared pool of parameter objects (clones share one Arc table); 10% of prover operations crash through an injected RNG panic (caught); the same scripts run under two different seeded interleavings and every operation is repeated once; a sample of operations also runs as the first library call of a fresh process, among them pairs of a batch and its near twin (one bit of one point encoding changed) verified one after the other in this process; oracle: an operation's result digest (proof bytes, Ok/Err class, masks) is a function of its descriptor only. Schedule part: Miri interprets 2-3 real threads (racing first use of the statics, sharing one precomputed table, thorough: proving and verifying concurrently) under seeded schedules with its data-race detector on and compares every thread's results with a single-threaded reference. One evaluation = one operation executed or one Miri execution; distinct = distinct event-log hashes + distinct schedule signatures.".into()
     }
 
     fn assumptions(&self) -> Vec<String> {
